@@ -240,7 +240,7 @@ def pad_rdms_with_frozen_orbitals_restricted(sec_mol, onerdm, twordm):
 
     # Deleting the one rdm contribution in the two rdm. This must be done to
     # redo the operation later with the one rdm with the frozen orbital.
-    twordm = twordm.transpose(1, 0, 3, 2)
+    twordm = twordm.transpose(1, 0, 3, 2).copy()
 
     onerdm_without_diag = np.copy(onerdm)
     onerdm_without_diag[np.diag_indices(n_occ0)] -= 2
@@ -345,9 +345,9 @@ def pad_rdms_with_frozen_orbitals_unrestricted(sec_mol, onerdm, twordm):
 
     # Deleting the one rdm contribution in the two rdm. This must be done to
     # redo the operation later with the one rdm with the frozen orbital.
-    twordm_aa = twordm_aa.transpose(1, 0, 3, 2)
-    twordm_bb = twordm_bb.transpose(1, 0, 3, 2)
-    twordm_ab = twordm_ab.transpose(1, 0, 3, 2)
+    twordm_aa = twordm_aa.transpose(1, 0, 3, 2).copy()
+    twordm_bb = twordm_bb.transpose(1, 0, 3, 2).copy()
+    twordm_ab = twordm_ab.transpose(1, 0, 3, 2).copy()
 
     onerdm_without_diag_a = np.copy(onerdm_a)
     onerdm_without_diag_a[np.diag_indices(n_occ0_a)] -= 1
